@@ -107,3 +107,127 @@ def pool_scope_closes(ctx: Context, rule: str) -> None:
         ok = len(pools) == 1 and len(inner) == 1 and any(inner[0] is x for x in ast.walk(pools[0]))
         rep.ob(rule, fkey("shared", f, "one-shot-pool-scoped"), ok, where(f), f"httpcore.{name}() runs its request inside `with ConnectionPool() as pool:` (the pool, and with it every stream, is closed on exit)" if ok else
                f"httpcore.{name}() does not run inside a `with ConnectionPool()` scope: its connection is never closed")
+
+
+def mapping_helper_faithful(ctx: Context, rule: str) -> None:
+    """The escape analysis models `with map_exceptions(m):` as: an Exception raised in the block that is an instance of a key
+    leaves as the mapped class, anything else leaves unchanged, nothing is swallowed, BaseExceptions pass.  This rule decides
+    that the helper's source still has exactly that meaning (the model would otherwise be silently wrong)."""
+    rep = ctx.rep
+    mod = ctx.prog.module("httpcore._exceptions")
+    f = next((x for x in mod.all_functions() if x.short == "map_exceptions"), None)
+    if f is None:
+        raise AnalysisError("anchor vanished: map_exceptions in _exceptions.py")
+    problems = []
+    deco = [norm(d) for d in f.node.decorator_list]
+    if deco != ["contextlib.contextmanager"]:
+        problems.append(f"decorators {deco}")
+    body = [s for s in f.node.body if not (isinstance(s, ast.Expr) and isinstance(s.value, ast.Constant))]
+    t = body[0] if len(body) == 1 and isinstance(body[0], ast.Try) else None
+    if t is None:
+        problems.append("body is not a single try statement")
+    else:
+        if not (len(t.body) == 1 and isinstance(t.body[0], ast.Expr) and isinstance(t.body[0].value, ast.Yield) and t.body[0].value.value is None):
+            problems.append("the try body is not a bare `yield`")
+        if t.orelse or t.finalbody:
+            problems.append("else / finally clause present")
+        if len(t.handlers) != 1 or t.handlers[0].type is None or norm(t.handlers[0].type) != "Exception" or not t.handlers[0].name:
+            problems.append("not exactly one `except Exception as <name>` handler (BaseExceptions - cancellation - must pass untouched)")
+        else:
+            h = t.handlers[0]
+            exc = h.name
+            loops = [s for s in h.body if isinstance(s, ast.For)]
+            last = h.body[-1] if h.body else None
+            if not (isinstance(last, ast.Raise) and last.exc is None):
+                problems.append("the handler does not end with a bare `raise`: an exception matching no key is swallowed")
+            if len(loops) != 1 or len(h.body) != 2:
+                problems.append("handler is not `for ... in map.items(): ...` followed by `raise`")
+            else:
+                lp = loops[0]
+                par = [a for a in f.param_names()]
+                it_ok = norm(lp.iter) == f"{par[0]}.items()" and isinstance(lp.target, ast.Tuple) and len(lp.target.elts) == 2
+                if not it_ok:
+                    problems.append(f"loop is over `{ast.unparse(lp.iter)}`")
+                else:
+                    k, v = norm(lp.target.elts[0]), norm(lp.target.elts[1])
+                    ok = len(lp.body) == 1 and isinstance(lp.body[0], ast.If) and norm(lp.body[0].test) == f"isinstance({exc},{k})" and not lp.body[0].orelse and \
+                        len(lp.body[0].body) == 1 and isinstance(lp.body[0].body[0], ast.Raise) and norm(lp.body[0].body[0].exc) == f"{v}({exc})" and not lp.orelse
+                    if not ok:
+                        problems.append("loop body is not `if isinstance(exc, from_exc): raise to_exc(exc) from exc`")
+    rep.ob(rule, fkey("shared", f, "model-agreement"), not problems, where(f),
+           "map_exceptions: first matching key wins, the mapped class is raised from the original, unmatched exceptions are re-raised, BaseExceptions pass" if not problems else
+           "map_exceptions no longer has the meaning the exception analysis assumes: " + "; ".join(problems))
+
+
+def exits_never_suppress(ctx: Context, rule: str) -> None:
+    """No context manager defined by the package suppresses an exception: every __exit__/__aexit__ returns None on every path
+    (a truthy return would swallow a network or protocol failure inside the `with` block)."""
+    rep = ctx.rep
+    n = 0
+    mods = [ctx.prog.module(m) for m in ("httpcore._trace", "httpcore._synchronization", "httpcore._models")]
+    for tree in ("async", "sync"):
+        mods += list(ctx.names(tree).modules())
+    for m in mods:
+        for c in m.classes.values():
+            for name in ("__exit__", "__aexit__"):
+                f = c.methods.get(name)
+                if f is None:
+                    continue
+                n += 1
+                rets = [r for r in own_nodes(f.node) if isinstance(r, ast.Return) and r.value is not None and not (isinstance(r.value, ast.Constant) and r.value.value in (None, False))]
+                rep.ob(rule, fkey("shared" if m.name.count(".") == 1 else ("sync" if "._sync." in m.name else "async"), f, "returns-none"), not rets, where(f, rets[0] if rets else None),
+                       f"{c.name}.{name} never returns a value (exceptions in the block propagate)" if not rets else
+                       f"{c.name}.{name} can return `{ast.unparse(rets[0].value)[:50]}`: a truthy result swallows the exception raised inside the `with` block")
+    rep.floor(rule, "context-manager exits in the package", n, 10)
+
+
+def establish_test_and_set(ctx: Context, rule: str, tree_filter: tuple[str, ...] = ("async", "sync")) -> None:
+    """Lazy establishment is a test-and-set under the establishment lock: every store that installs the inner connection
+    (`self._connection = <constructor>`, `self._connected = True`) lies inside a `with self._<lock>` region AND the
+    `self._connection is None` / `not self._connected` test that guards it is evaluated inside that same region.  A test
+    made before taking the lock (and not repeated under it) lets two requests that were both handed the not-yet-connected
+    connection each open a stream: the first stream is overwritten, never closed and no longer counted."""
+    rep = ctx.rep
+    n = 0
+    for tree, N in trees(ctx):
+        if tree not in tree_filter:
+            continue
+        for mod, cn in (("connection", "AsyncHTTPConnection"), ("http_proxy", "AsyncTunnelHTTPConnection"), ("socks_proxy", "AsyncSocks5Connection")):
+            c = N.cls(mod, cn)
+            for f in c.methods.values():
+                if f.name == "__init__":
+                    continue
+                for st in own_nodes(f.node):
+                    if not (isinstance(st, ast.Assign) and norm(st.targets[0]) in ("self._connection", "self._connected")):
+                        continue
+                    if isinstance(st.value, ast.Constant) and st.value.value in (None, False):
+                        continue
+                    n += 1
+                    lock = None
+                    test_inside = False
+                    test_seen = False
+                    p = parent(st)
+                    while p is not None and p is not f.node:
+                        if isinstance(p, ast.If) and lock is None:
+                            t = norm(p.test)
+                            if "self._connection" in t or "self._connected" in t:
+                                test_seen = True
+                                test_inside = True     # provisional: confirmed when a lock is found further out
+                        if isinstance(p, (ast.With, ast.AsyncWith)) and lock is None:
+                            for it in p.items:
+                                nm = norm(it.context_expr)
+                                if nm.startswith("self._") and nm.endswith("_lock"):
+                                    lock = nm
+                        elif isinstance(p, ast.If) and lock is not None:
+                            t = norm(p.test)
+                            if ("self._connection" in t or "self._connected" in t) and not test_seen:
+                                test_seen = True
+                                test_inside = False
+                        p = parent(p)
+                    ok = lock is not None and test_seen and test_inside
+                    rep.ob(rule, fkey(tree, f, f"test-and-set:{norm(st.targets[0])}"), ok, where(f, st),
+                           f"`{norm(st.targets[0])}` is installed under `{lock}` and the not-yet-established test is made inside that region" if ok else
+                           (f"`{norm(st.targets[0])}` is installed outside any establishment lock" if lock is None else
+                            f"the not-yet-established test guarding `{norm(st.targets[0])} = ...` is " + ("missing" if not test_seen else f"made before `{lock}` is taken and not repeated under it") +
+                            ": two requests handed the same unconnected connection both establish it - the first stream is overwritten, stays open and is no longer counted"))
+    rep.floor(rule, "stores installing a lazily established inner connection", n, 6)
